@@ -67,6 +67,12 @@ func (Prop) Gen(seed int64, tier string) *harness.Case {
 		w.Spawn = append(w.Spawn, r.Intn(nSpawn))
 	}
 	stages := 1 + r.Intn(3)
+	if tier == "thorough" && r.Intn(3) == 0 {
+		stages = 3 + r.Intn(3)
+		for i := range w.Items {
+			w.Items[i] = 4 + r.Intn(20)
+		}
+	}
 	maxN := 0
 	for _, n := range w.Items {
 		if n > maxN {
